@@ -324,6 +324,7 @@ def main(rep, tier, seed):
     rnd = gen_random(rng, tier)
     items = corpus + exh + rnd
     outl, bad, errors = F.correspond(binpath, items, HEADER, CHECK, "c09", per_file=400)
+    rep.extra["build_profiles"] = F.profile_phase(rep, "c09", items, outl, profiles=("release",)) if not errors and len(outl) == len(items) else {}
     for name, msg in errors:
         rep.violation("correspondence_error_" + name.replace("/", "_"), {"kind": "correspondence could not be evaluated", "where": name, "log": msg}, no_input=True)
     feat_hist, fam_hist, size_hist = {}, {}, {}
